@@ -261,6 +261,21 @@ func c03World(t *testing.T, r *simcore.Run) any {
 				if o != nil && o.Src == Q.Src && o.SrcConn != Q.SrcConn {
 					site = "accept/stale-reply-on-reused-port"
 				}
+				// An interleaved request names its sender's previous kernel transmit timestamp. When the
+				// simulated kernel has given that very timestamp to two sends of this host (two clients
+				// that sent at the same virtual instant), a reply to the other client's request is not
+				// distinguishable from a reply to this one by anything the packets carry: the
+				// coincidence is the simulator's, not the client's.
+				same := 0
+				for _, sd := range w.sent {
+					if sd.OrigID == 0 && sd.SrcConn != nil && sd.SrcConn.Host() == w.cli && !sd.TxStamp.IsZero() && ntp.Time64FromTime(sd.TxStamp) == qp.TransmitTime {
+						same++
+					}
+				}
+				if same >= 2 {
+					r.Probe("two-sends-with-one-kernel-transmit-timestamp")
+					return
+				}
 				r.Fail("C03", site, "the client accepted reply %d, which answers request %d of an earlier attempt, for its request %d (port %v, port reuse %v)",
 					P.ID, c0.ID, Q.ID, Q.Src, w.net.ReusePorts)
 				return
